@@ -52,7 +52,7 @@ def run_property(pid, jobs=None, only=None):
     spec = mod.S
     tasks = []
     for q, fs in spec.fns.items():
-        if fs.abstract or fs.trusted or (fs.inline and not fs.ensures):
+        if fs.abstract or fs.trusted or fs.native_only or (fs.inline and not fs.ensures):
             continue
         tasks.append((pid, "fn", q))
     for l in spec.lemmas:
@@ -79,7 +79,7 @@ if __name__ == "__main__":
         bad = [o for o in r["obligations"] if o["status"] != "unsat"]
         print("%-50s %-10s paths=%d ret=%d obl=%d bad=%d %.2fs %s" % (
             r["qual"], r["status"], r["paths"], r["returns"], nob, len(bad), r["seconds"], r["reason"] or ""))
-        for o in bad:
-            print("    %s [%s] %s path=%s line=%s model=%s" % (o["status"].upper(), o["backend"], o["name"], o["path"],
-                                                               o["line"], o.get("model")))
+        for o in bad[:int(os.environ.get("PYVC_SHOW", "6"))]:
+            print("    %s [%s] %s path=%s line=%s inputs=%s" % (o["status"].upper(), o["backend"], o["name"], o["path"],
+                                                                o["line"], json.dumps((o.get("pyinputs") or {}).get("args"))[:300]))
     print("total %.1fs" % (time.time() - t0))
